@@ -16,9 +16,9 @@ import (
 
 func init() {
 	mc := "model_checking"
-	register(&Check{ID: "C08", Level: mc, Run: runC08, QuickBudget: 150 * time.Second, ThoroughBudget: 40 * time.Minute})
-	register(&Check{ID: "C12", Level: mc, Run: runC12, QuickBudget: 150 * time.Second, ThoroughBudget: 40 * time.Minute})
-	register(&Check{ID: "C17", Level: mc, Run: runC17, QuickBudget: 150 * time.Second, ThoroughBudget: 40 * time.Minute})
+	register(&Check{ID: "C08", Level: mc, Run: runC08, QuickBudget: 400 * time.Second, ThoroughBudget: 40 * time.Minute})
+	register(&Check{ID: "C12", Level: mc, Run: runC12, QuickBudget: 400 * time.Second, ThoroughBudget: 40 * time.Minute})
+	register(&Check{ID: "C17", Level: mc, Run: runC17, QuickBudget: 400 * time.Second, ThoroughBudget: 40 * time.Minute})
 	Replayers["c08"] = replayC08
 	Replayers["c12"] = replayC12
 	Replayers["c17"] = replayC17
@@ -255,6 +255,7 @@ func runC08(r *h.Run) {
 		for _, o := range c08Modes {
 			for _, wv := range []bool{true, false} {
 				w.Evals++
+				w.Tick()
 				w.StatesN++
 				if len(u.keys) >= 2 {
 					w.NontrivN++
@@ -320,6 +321,7 @@ func runC08(r *h.Run) {
 		w.Begin(func() string { return "C08 " + u.desc })
 		for _, o := range c08Modes {
 			w.Evals++
+			w.Tick()
 			w.StatesN++
 			w.NontrivN++
 			if v := evalC08(w, u.keys, o, true, false); v != nil {
@@ -356,6 +358,7 @@ func runC08(r *h.Run) {
 		for _, o := range c08Modes {
 			for _, wv := range []bool{true, false} {
 				w.Evals++
+				w.Tick()
 				w.StatesN++
 				w.NontrivN++
 				if v := evalC08(w, u.keys, o, wv, false); v != nil {
@@ -409,6 +412,7 @@ func runC08(r *h.Run) {
 		for _, o := range c08Modes {
 			for _, wv := range []bool{true, false} {
 				w.Evals++
+				w.Tick()
 				w.StatesN++
 				w.NontrivN++
 				if v := evalC08(w, keys, o, wv, long); v != nil {
@@ -568,7 +572,17 @@ func evalC12(w *h.Worker, keys []string, offsets []int64, mode string, qs []stri
 	}
 	var viol *h.Viol
 	if p := h.Safely(func() {
-		for _, q := range qs {
+		// every indexed key first (whatever the query list holds), then the queries
+		for i := 0; i < len(keys)+len(qs); i++ {
+			var q string
+			if i < len(keys) {
+				q = keys[i]
+			} else {
+				q = qs[i-len(keys)]
+				if present[q] {
+					continue
+				}
+			}
 			var v string
 			var found bool
 			if mode == "get" {
@@ -601,6 +615,7 @@ type c12Unit struct {
 	keys []string
 	qs   []string
 	name string
+	lite bool // large record sets: one gap pattern, block sizes 1, 3 and 64
 }
 
 func runC12(r *h.Run) {
@@ -619,6 +634,9 @@ func runC12(r *h.Run) {
 		w.Begin(func() string { return "C12 " + u.name })
 		n := len(u.keys)
 		for gi, g := range gaps {
+			if u.lite && gi != 1 {
+				continue
+			}
 			offs := make([]int64, n)
 			for i := range offs {
 				offs[i] = int64(i)*g + int64(gi)
@@ -627,6 +645,7 @@ func runC12(r *h.Run) {
 				}
 			}
 			w.Evals++
+			w.Tick()
 			w.State(h.Hash64([]byte(strings.Join(u.keys, "\x01")), []byte(fmt.Sprint("get", g))), n >= 2)
 			if v := evalC12(w, u.keys, offs, "get", u.qs); v != nil {
 				reportC12(w, v, u, offs, "get")
@@ -641,11 +660,15 @@ func runC12(r *h.Run) {
 			maxB = 1
 		}
 		for bsz := 1; bsz <= maxB; bsz++ {
+			if u.lite && bsz != 1 && bsz != 3 && bsz != 64 {
+				continue
+			}
 			offs := make([]int64, n)
 			for i := range offs {
 				offs[i] = int64(i/bsz) * 4096
 			}
 			w.Evals++
+			w.Tick()
 			w.State(h.Hash64([]byte(strings.Join(u.keys, "\x01")), []byte(fmt.Sprint("rg", bsz))), n >= 2)
 			if v := evalC12(w, u.keys, offs, "rangeget", u.qs); v != nil {
 				reportC12(w, v, u, offs, "rangeget")
@@ -684,6 +707,33 @@ func runC12(r *h.Run) {
 			}
 		}
 	}, work)
+	// every remaining short-table size up to the maximum (10): fillers of up to
+	// about 56 k records, over K(U21,1) (quick: every fourth single), reduced
+	// offset patterns
+	{
+		rest := map[bool][]int{false: {4, 5, 6, 7, 8, 9, 10}, true: {7, 8, 9, 10}}[thorough]
+		var big []h.Scaffold
+		for _, s := range rest {
+			if f := shortFiller(sp.sigma, s, false); f != nil {
+				big = append(big, h.ScaffoldFixed(fmt.Sprintf("short%d", s), f, "\xb0"))
+			}
+		}
+		r.Bounds["large_short_table_sets"] = fmt.Sprintf("short-table sizes %v over K(U21,1), Get gap 7, RangeGet block sizes 1, 3, 64", rest)
+		r.Phase("large-short-table-sets", func(emit func(u interface{}) bool) {
+			it := h.NewSubsetIter(len(sp.u2), 0, 1)
+			for idx := it.Next(); idx != nil; idx = it.Next() {
+				if !thorough && len(idx) == 1 && idx[0]%4 != 0 {
+					continue
+				}
+				for _, sc := range big {
+					s := sc.Apply(h.Pick(sp.u2, idx))
+					if !emit(c12Unit{keys: s.Keys, qs: queriesFor(s, sp.q2, false, false), name: "scaffold:" + s.Name, lite: true}) {
+						return
+					}
+				}
+			}
+		}, work)
+	}
 	fams := manyFamilies(sp, thorough)
 	r.Phase("regular-sets", func(emit func(u interface{}) bool) {
 		for _, f := range fams {
@@ -998,6 +1048,7 @@ func runC17(r *h.Run) {
 			var bad *h.Opt4
 			for _, f := range forms {
 				w.Evals++
+				w.Tick()
 				if v = evalC17(w, u.keys, P, f); v != nil {
 					bad = f
 					break
